@@ -438,3 +438,17 @@ func TestF15ReuseAfterFailedCallWithOtherDuplicateNames(t *testing.T) {
 		}
 	})
 }
+
+// F19: Float(2^63).Int() and Float(2^64).Uint() saturate but report no error although the
+// number is an integer outside the range of the destination.
+func TestF19TokenIntRangeAtFloatBoundary(t *testing.T) {
+	if v, err := jsontext.Float(9223372036854775808.0).Int(); err == nil {
+		t.Errorf("Float(2^63).Int() = %d, nil; want a range error", v)
+	}
+	if v, err := jsontext.Float(18446744073709551616.0).Uint(); err == nil {
+		t.Errorf("Float(2^64).Uint() = %d, nil; want a range error", v)
+	}
+	if v, err := jsontext.Float(-9223372036854775808.0).Int(); err != nil || v != -9223372036854775808 {
+		t.Errorf("Float(-2^63).Int() = %d, %v; want the exact value", v, err)
+	}
+}
